@@ -47,6 +47,10 @@ def full(kind, N, v):
         if N == 2:
             return M2(lambda i, j: v[3 * i + j] if (i < 2 and j < 2) else delta(i, j))
         return M2(lambda i, j: v[3 * i + j])
+    if kind == 'v':
+        return list(v)
+    if kind == 'm':
+        return M2(lambda i, j: v[3 * i + j])
     if kind == 'A':
         return M4(lambda i, j, k, l: v[IDX6[i, j] * ss + IDX6[k, l]] / (w(i, j) * w(k, l)) if (IDX6[i, j] < ss and IDX6[k, l] < ss) else 0.0)
     if kind == 'B':
@@ -115,6 +119,20 @@ def d2det4(a): return M4(lambda i, j, k, l: sum(eps(i, k, m) * eps(j, l, n) * a[
 def expr2(a, b, x): return add2(sub2(scal2(2, a), scal2(1 / 3, b)), scal2(x, mul2(a, b)))
 def expr4(a, b, x): return add4(sub4(scal4(2, a), scal4(1 / 3, b)), scal4(x, mul44(a, b)))
 K4S = sub4(IdS4, scal4(1 / 3, IxI4))
+def dev2(s): return sub2(s, scal2(trace2(s) / 3, Id2))
+
+
+def polar(F):
+    """polar decomposition F = R U by the Newton iteration R <- (R + R^-T)/2 (no eigen-solver): (R, U = R^T F)"""
+    R = [row[:] for row in F]
+    for _ in range(200):
+        iRt = tr2(inv2(R))
+        Rn = M2(lambda i, j: (R[i][j] + iRt[i][j]) / 2)
+        d = max(abs(Rn[i][j] - R[i][j]) for i in R3 for j in R3)
+        R = Rn
+        if d < 1e-15:
+            break
+    return R, mul2(tr2(R), F)
 
 SPEC = {
     't_mul': lambda N, a, b: mul2(a, b),
@@ -186,6 +204,22 @@ SPEC = {
     'C_convertToT2toST2': lambda N, b: symL(b),
     'D_tpld': lambda N, b: symR(tpld4(b)),
     'D_tprd': lambda N, a: symR(tprd4(a)),
+    # extensions (round 4)
+    'C_lapply': lambda N, s, c: mul24(s, c),
+    'D_lapply': lambda N, t, c: mul24(t, c),
+    'st_otimes': lambda N, a, b: otimes(a, b),
+    'ts_otimes': lambda N, a, b: otimes(a, b),
+    'C_expr': lambda N, a, b, x: add4(sub4(scal4(2, a), scal4(1 / 3, b)), scal4(-x, a)),
+    'D_expr': lambda N, a, b, x: add4(sub4(scal4(2, a), scal4(1 / 3, b)), scal4(-x, a)),
+    'A_dsquare2': lambda N, s, c: mul44(symR(add4(tpld4(s), tprd4(s))), c),
+    'D_tpld2': lambda N, b, c: mul44(symR(tpld4(b)), c),
+    'D_tprd2': lambda N, a, c: mul44(symR(tprd4(a)), c),
+    'A_dev_d2det': lambda N, s: mul44(mul44(K4S, symL(symR(d2det4(dev2(s))))), K4S),
+    'A_pull_back': lambda N, c, F: pf4(inv2(F), c),
+    't_fromFortran': lambda N, m: tr2(m),
+    # polar decomposition: independent of the eigenvalues handed to the traced expression
+    't_polar_U': lambda N, F, vp: polar(F)[1],
+    't_polar_R': lambda N, F, vp: polar(F)[0],
 }
 
 
